@@ -135,6 +135,8 @@ mut("C20", "partition-unsorted", E + "FEM/_group_elem.py", "        elements = n
 mut("C20", "ghost-any-axis", E + "FEM/_mesher.py", "mask = np.isin(other_connect, nodes_arr).any(axis=1)", "mask = np.isin(other_connect, nodes_arr).all(axis=1)", "__Get_partitioned_groupElems")
 
 # ---------------------------------------------------------------- rules added after the first seeded round
+mut("C02", "thermal-thickness-model-dim", E + "Simulations/_thermal.py", "            if self.mesh.dim == 2:\n                thickness = thermalModel.thickness", "            if self.dim == 2:\n                thickness = thermalModel.thickness", "Thermal")
+mut("C17", "history-damage-not-stored", E + "Simulations/_phasefield.py", "            self._Set_solutions(self.ProblemTypes.damage, d_np1)\n            self.__updatedDisplacement = False\n", "", "PhaseField.Solve")
 mut("C04", "lagrange-col-unscaled", E + "Simulations/Solvers.py", "    A[dofs_Dirichlet, linesDirichlet] = alpha\n", "    A[dofs_Dirichlet, linesDirichlet] = 1.0\n", "__Solver_2")
 mut("C02", "timo2d-shear-sign", E + "FEM/Elems/_beam.py", "            B_e_pg[:, :, 2, idx_rz] -= Nu_pg  # -θ", "            B_e_pg[:, :, 2, idx_rz] += Nu_pg  # -θ", "Get_beam_B_e_pg")
 mut("C01", "eb3d-torsion-on-ry", E + "FEM/Elems/_beam.py", "            B_e_pg[:, :, 1, idx_rx] = dN_e_pg[:, :, 0]  # torsion: drx/dx (Lagrange)", "            B_e_pg[:, :, 1, idx_rx + 1] = dN_e_pg[:, :, 0]  # torsion: drx/dx (Lagrange)", "Get_beam_B_e_pg")
@@ -150,6 +152,9 @@ mut("C18", "path-tangent-weight", E + "FEM/Operators/NonLinear.py", "           
 mut("C19", "condense-sign", E + "Models/InElastic/_behavior.py", "        return C_in - TensorProd(c_iz, c_zi) / c_zz", "        return C_in + TensorProd(c_iz, c_zi) / c_zz", "__Condense")
 mut("C19", "jacobian-dR-at-old-state", E + "Models/InElastic/_behavior.py", "            dG_e_pg = u_e_pg[..., nz, None, None]\n            alpha_e_pg = z_e_pg[..., A][..., 0]", "            dG_e_pg = u_e_pg[..., nz, None, None]\n            alpha_e_pg = zOld_e_pg[..., A][..., 0]", "__Jacobian")
 mut("C17", "r-inplace-on-history", E + "Models/_phasefield.py", "        # J/m3\n        if self.regularization == self.ReguType.AT1:\n            f = 2 * PsiP_e_pg - ((3 * Gc) / (8 * l0))", "        # J/m3\n        if self.regularization == self.ReguType.AT1:\n            PsiP_e_pg *= 2\n            f = PsiP_e_pg - ((3 * Gc) / (8 * l0))", "Get_f_e_pg")
+mut("C08", "coord-global-index", E + "FEM/_group_elem.py", "        connect = self._global_to_local_nodes[self.connect]\n        coord_e = self.coord[connect]", "        connect = self.connect\n        coord_e = self.coord[connect]", "index")
+mut("C08", "tag-with-local-rows", E + "FEM/_group_elem.py", "        closest_nodes = self.nodes[closest_node_indices]\n", "        closest_nodes = self._global_to_local_nodes[self.nodes[closest_node_indices]]\n", "_Get_nearby_elements")
+same("C08", "nearby-nodes-inline", E + "FEM/_group_elem.py", "        closest_nodes = self.nodes[closest_node_indices]\n\n        return closest_nodes", "        return self.nodes[closest_node_indices]")
 same("C19", "condense-rewrite", E + "Models/InElastic/_behavior.py", "        return C_in - TensorProd(c_iz, c_zi) / c_zz", "        return C_in - TensorProd(c_iz / c_zz, c_zi)")
 same("C16", "reaction-explicit-full-tuple", E + "Simulations/_simu.py", "        elif self.algo in AlgoType.Get_Hyperbolic_Types():\n            reaction[dofs] += C[dofs]", "        elif self.algo in (AlgoType.newmark, AlgoType.midpoint, AlgoType.hht, AlgoType.hht_newmark, AlgoType.euler_implicit, AlgoType.euler_explicit):\n            reaction[dofs] += C[dofs]")
 same("C11", "param-set-reordered", E + "Utilities/_params.py", "        instance.__dict__[self.__name] = value\n        if isinstance(instance, Updatable):\n            instance.Need_Update()", "        if isinstance(instance, Updatable):\n            instance.Need_Update()\n        instance.__dict__[self.__name] = value")
@@ -182,6 +187,8 @@ RENAME = [
     ("C19", "EasyFEA.Models.InElastic._behavior.Behavior.Integrate"), ("C19", "EasyFEA.Models.InElastic._behavior.Behavior.__Flow"), ("C19", "EasyFEA.Simulations._inelastic.InElastic.Construct_local_matrix_system"), ("C19", "EasyFEA.Simulations._inelastic.InElastic.Save_Iter"),
     ("C20", "EasyFEA.Simulations._simu._Simu.Calc_Reaction"), ("C20", "EasyFEA.Simulations._simu._Simu.Calc_Energy"), ("C20", "EasyFEA.FEM._mesher.Mesher.__Get_partitioned_groupElems"), ("C20", "EasyFEA.FEM._mesh.Mesh.Merge"), ("C20", "EasyFEA.FEM._group_elem._GroupElem._Set_partitioned_data"),
     ("C02", "EasyFEA.FEM.Elems._beam._Timoshenko.Get_beam_B_e_pg"), ("C01", "EasyFEA.FEM.Elems._beam._EulerBernoulli.Get_beam_B_e_pg"), ("C02", "EasyFEA.FEM.Elems._beam._EulerBernoulli.Get_Hermitian_ddN_e_pg"),
+    ("C08", "EasyFEA.FEM._group_elem._GroupElem._Get_nearby_nodes"), ("C08", "EasyFEA.FEM._group_elem._GroupElem._Get_nearby_elements"), ("C08", "EasyFEA.FEM._group_elem._GroupElem.Get_Elements_Nodes"), ("C08", "EasyFEA.FEM._group_elem._GroupElem._Get_Mapping"),
+    ("C02", "EasyFEA.Simulations._thermal.Thermal.Construct_local_matrix_system"), ("C17", "EasyFEA.Simulations._phasefield.PhaseField.Solve"),
     ("C09", "EasyFEA.Simulations._beam.Beam.add_lineLoad"), ("C11", "EasyFEA.Utilities._params._Parameter.__set__"),
     ("C14", "EasyFEA.Simulations._phasefield.PhaseField.Solve"), ("C14", "EasyFEA.Simulations._phasefield.PhaseField.Set_Iter"), ("C14", "EasyFEA.Simulations._phasefield.PhaseField.Get_K_C_M_F"),
     ("C15", "EasyFEA.Simulations._simu._Simu.Set_Iter"), ("C16", "EasyFEA.Models._utils.Result_strain_or_stress_field_e"), ("C16", "EasyFEA.Simulations._simu._Simu.Calc_Reaction"),
